@@ -81,9 +81,9 @@ CHECKS += [
 ]
 
 CHECKS += [
-    other('C12', 'MCConc.tla: TLC explores every interleaving of the critical sections of small thread programs and checks lock discipline and linearizability against all sequential executions (and must reject the pinned-code variant AsIs_D7); '
-                 'implementation: seeded concurrent programs (2-3 threads; calls, creation with/without IN_SEQUENCE and TIMES, release, is_satisfied / is_saturated / is_completed, watch / destroy watched object, destroy own mock) run on the real library built with ThreadSanitizer, an instrumented lock (custom recursive mutex seam: owner, tickets, random yields) and the verification hooks; '
-                 'three observers of the same runs: TSan reports, the lock-held flag of every hook event on shared state, and a linearization replay - every critical section in lock-ticket order through Core!Step with every operation result compared by TLC',
+    other('C12', 'MCConc.tla: TLC explores every interleaving of the critical sections of small thread programs and checks lock discipline and linearizability against all sequential executions (and must reject the pinned-code variants AsIs_D7 and AsIs_D17); '
+                 'implementation: seeded concurrent programs (2-8 threads: up to 3 owner threads plus callers; calls, creation with/without IN_SEQUENCE and TIMES, release, is_satisfied / is_saturated / is_completed, watch / destroy watched object / release its monitor from another thread, destroy a mock while another thread releases or queries its expectations) run on the real library built with ThreadSanitizer, an instrumented lock (custom recursive mutex seam: owner, tickets, random yields) and the verification hooks; '
+                 'three observers of the same runs: TSan reports, the lock-held flag of every hook event on shared state, and a linearization replay - every critical section in lock-ticket order through Core!Step with every operation result compared by TLC, and for every recorded mock destruction the question whether one atomic step explains the window it spans',
           'TLA+ concurrency model (TLC, exhaustive interleavings of critical sections) + TLC trace validation of real concurrent executions linearized by lock tickets + TSan + lock-discipline hooks', '6/C12',
           'trusted: TLC, TSan, the instrumented mutex; schedules on the implementation are sampled (exhaustive only in the model); caller obligations of the property are generator preconditions', 'tla-core'),
 ]
